@@ -37,7 +37,7 @@ MCNext ==
              LoadFlow(ev) /\ Log(ev) /\ cnt' = 2
     \/ /\ on /\ cnt = 2
        /\ \E rs \in HotSets : LET ev == [e |-> "load", fam |-> "hot", op |-> "all", t |-> now[1], tn |-> now[2], rules |-> rs] IN
-             LoadHot(ev) /\ Log(ev) /\ cnt' = 3
+             LoadHot(ev, FALSE) /\ Log(ev) /\ cnt' = 3
     \/ /\ on /\ cnt = 3
        /\ \E ev \in EnterEvents : \E fo \in FlowStage(ev) : \E ho \in HotStage(ev, Add(Tm(ev), fo.wait)) :
              Enter(ev, fo, ho) /\ Log(ev) /\ cnt' = 3
